@@ -16,7 +16,9 @@ const GUESS_HZ_100: f64 = 100.0; // Common frequency guess: 100 Hz
 const GUESS_TOLERANCE: f64 = 0.10; // Tolerance for frequency guessing
 
 // Connection tracking cache TTL
-const CONNECTION_CACHE_TTL_SECS: u64 = 30; // Time-to-live for cached connection data (seconds)
+// Must cover the whole MAX_TWAIT window, otherwise the reference timestamp expires before a
+// second segment up to 10 minutes later can be compared with it
+const CONNECTION_CACHE_TTL_SECS: u64 = MAX_TWAIT / 1000; // Time-to-live for cached connection data (seconds)
 
 #[derive(Debug, Hash, Eq, PartialEq, Clone)]
 pub struct Connection {
